@@ -378,6 +378,12 @@ impl Walrus {
                 };
                 let mut in_block_off: u64 = 0;
                 loop {
+                    // No entry header fits into what is left of the block. Probing anyway
+                    // reads past the block - and, for the last block of a file, past the end
+                    // of the file.
+                    if in_block_off + PREFIX_META_SIZE as u64 > block_limit {
+                        break;
+                    }
                     match block_stub.read(in_block_off) {
                         Ok((_entry, consumed)) => {
                             used += consumed as u64;
